@@ -34,6 +34,18 @@ mod verif_kani_pattern {
         check_eq::<9>();
     }
 
+    /// longer needles (an implementation may switch to wider loads above some length): the
+    /// comparison must still look at every byte
+    #[kani::proof]
+    #[kani::unwind(34)]
+    fn is_equal_raw_is_slice_eq_long() {
+        check_eq::<16>();
+        check_eq::<22>();
+        check_eq::<24>();
+        check_eq::<29>();
+        check_eq::<32>();
+    }
+
     fn check_prefix<const H: usize, const P: usize>() {
         let h: [u8; H] = kani::any();
         let p: [u8; P] = kani::any();
